@@ -35,7 +35,7 @@ def setup():
 
 
 OPS = ['finalize', 'unlock_enter', 'unlock_exit_ok', 'unlock_exit_raise', 'bind_x', 'parse_y', 'register', 'clear',
-       'register_class_with_method', 'hook_y7', 'hook_y8_other_spelling', 'hook_z', 'hook_invalid', 'hook_raises', 'hook_none',
+       'register_class_with_method', 'hook_y7', 'hook_y8_other_spelling', 'hook_z', 'hook_invalid', 'hook_raises', 'hook_none', 'hook_empty',
        'parse_unbound_macro', 'parse_placeholder', 'parse_required', 'bind_tuple_x', 'parse_block_z',
        'define_macro']
 UNIVERSE = ['c12.f.x', 'c12.f.y', 'c12.f.z']
@@ -56,6 +56,8 @@ def _hook(kind):
     return lambda config: {'c12.f.nope': 1}
   if kind == 'hook_none':
     return lambda config: None
+  if kind == 'hook_empty':
+    return lambda config: {}
 
   def raising(config):
     raise Boom()
@@ -154,7 +156,7 @@ class World:
         return 'Boom', None
       if h == 'hook_invalid':
         return 'ValueError', None
-      if h == 'hook_none':
+      if h in ('hook_none', 'hook_empty'):
         continue
       key, val = {'hook_y7': ('c12.f.y', 7), 'hook_y8_other_spelling': ('c12.f.y', 8), 'hook_z': ('c12.f.z', 9)}[h]
       if key in new:
